@@ -256,13 +256,44 @@ pub fn group_events(g: CommittedEvents) -> Vec<EventRecord> {
 // scans
 // ---------------------------------------------------------------------------
 
+/// Run a future on its own task so that a panic inside the code under test is
+/// reported as an error ("panic: <site>") instead of killing the shard.
+pub async fn guarded<T: Send + 'static>(f: impl std::future::Future<Output = T> + Send + 'static) -> Result<T, String> {
+    match tokio::spawn(f).await {
+        Ok(v) => Ok(v),
+        Err(e) if e.is_panic() => Err(format!("panic: {}", vpc::last_panic())),
+        Err(e) => Err(format!("task failed: {e}")),
+    }
+}
+
+pub async fn scan_partition(db: &Database, pid: Pid, from: u64, dir: IterDirection, how: Consume) -> Result<Vec<Vec<EventRecord>>, String> {
+    let db = db.clone();
+    guarded(async move { scan_partition_inner(&db, pid, from, dir, how).await }).await.and_then(|r| r)
+}
+
+pub async fn scan_stream(db: &Database, pid: Pid, stream: &str, from: u64, dir: IterDirection, how: Consume) -> Result<Vec<Vec<EventRecord>>, String> {
+    let db = db.clone();
+    let stream = stream.to_string();
+    guarded(async move { scan_stream_inner(&db, pid, &stream, from, dir, how).await }).await.and_then(|r| r)
+}
+
+pub async fn read_event_g(db: &Database, pid: Pid, id: u128) -> Result<Option<EventRecord>, String> {
+    let db = db.clone();
+    guarded(async move { db.read_event(pid, Uuid::from_u128(id)).await.map_err(|e| e.to_string()) }).await.and_then(|r| r)
+}
+
+pub async fn read_transaction_g(db: &Database, pid: Pid, id: u128) -> Result<Option<CommittedEvents>, String> {
+    let db = db.clone();
+    guarded(async move { db.read_transaction(pid, Uuid::from_u128(id)).await.map_err(|e| e.to_string()) }).await.and_then(|r| r)
+}
+
 #[derive(Clone, Copy, Debug, PartialEq, Eq, Hash)]
 pub enum Consume {
     Next,
     Batch(usize),
 }
 
-pub async fn scan_partition(db: &Database, pid: Pid, from: u64, dir: IterDirection, how: Consume) -> Result<Vec<Vec<EventRecord>>, String> {
+async fn scan_partition_inner(db: &Database, pid: Pid, from: u64, dir: IterDirection, how: Consume) -> Result<Vec<Vec<EventRecord>>, String> {
     let mut it = db.read_partition(pid, from, dir).await.map_err(|e| format!("read_partition: {e}"))?;
     let mut groups = Vec::new();
     let mut guard = 0;
@@ -290,7 +321,7 @@ pub async fn scan_partition(db: &Database, pid: Pid, from: u64, dir: IterDirecti
     Ok(groups)
 }
 
-pub async fn scan_stream(db: &Database, pid: Pid, stream: &str, from: u64, dir: IterDirection, how: Consume) -> Result<Vec<Vec<EventRecord>>, String> {
+async fn scan_stream_inner(db: &Database, pid: Pid, stream: &str, from: u64, dir: IterDirection, how: Consume) -> Result<Vec<Vec<EventRecord>>, String> {
     let sid = StreamId::new(stream.to_string()).unwrap();
     let mut it = db.read_stream(pid, sid, from, dir).await.map_err(|e| format!("read_stream: {e}"))?;
     let mut groups = Vec::new();
@@ -361,7 +392,7 @@ pub async fn audit_txn(db: &Database, model: &Model, ti: usize, out: &mut Vec<Fi
     // 1. event lookup by id
     for e in &mine {
         reads += 1;
-        match db.read_event(pid, Uuid::from_u128(e.event_id)).await {
+        match read_event_g(db, pid, e.event_id).await {
             Ok(Some(r)) => {
                 if let Some(d) = diff_event(&r, e, false) {
                     out.push(Finding { api: "read_event", class: "wrong-content".into(), what: d });
@@ -373,7 +404,7 @@ pub async fn audit_txn(db: &Database, model: &Model, ti: usize, out: &mut Vec<Fi
     }
     // 2. transaction read from the first event
     reads += 1;
-    match db.read_transaction(pid, Uuid::from_u128(mine[0].event_id)).await {
+    match read_transaction_g(db, pid, mine[0].event_id).await {
         Ok(Some(g)) => {
             let evs = group_events(g);
             if evs.len() != mine.len() {
@@ -475,7 +506,7 @@ pub async fn audit_all(db: &Database, model: &Model, out: &mut Vec<Finding>) -> 
         }
         for e in evs {
             reads += 1;
-            match db.read_event(*pid, Uuid::from_u128(e.event_id)).await {
+            match read_event_g(db, *pid, e.event_id).await {
                 Ok(Some(r)) => {
                     if let Some(d) = diff_event(&r, e, false) {
                         out.push(Finding { api: "read_event", class: "wrong-content".into(), what: d });
